@@ -9,8 +9,8 @@ SPECS = ["C14"]
 THEOREMS = ["C14.inv_runSt", "C14.I1", "C14.I2_alternation", "C14.I2_no_leak", "C14.I2", "C14.I3", "C14.I4", "C14.I5",
             "C14.I6_order", "C14.spec_partial", "C14.final_ups", "C14.final_quiet"]
 LEAN_MODULES = ["TbotVerif.Props.C14"]
-QUICK_N, THOROUGH_N = 20000, 120000
-QUICK_BUDGET, THOROUGH_BUDGET = 45, 600
+QUICK_N, THOROUGH_N = 15000, 120000
+QUICK_BUDGET, THOROUGH_BUDGET = 40, 600
 CASE_WALL = 20
 RULE = ("random program trees (depth <= 4, width <= 3) of request{..} with all reset/exclusive/reset_on_error "
         "combinations, with ctx{..}, reconfigure{..}, try{..}, raise, skip, teardown_if_alive over the dependency graphs "
